@@ -1441,9 +1441,19 @@ impl<B> StreamRef<B> {
 
         let mut stream = me.store.resolve(self.opaque.key);
 
+        let available = stream.send_flow.available();
+
         me.actions
             .send
-            .reserve_capacity(capacity, &mut stream, &mut me.counts)
+            .reserve_capacity(capacity, &mut stream, &mut me.counts);
+
+        // Capacity this stream gave back may have been assigned to streams
+        // that have data buffered: the connection task has to send it.
+        if stream.send_flow.available() < available {
+            if let Some(task) = me.actions.task.take() {
+                task.wake();
+            }
+        }
     }
 
     /// Returns the stream's current send capacity.
